@@ -335,7 +335,8 @@ theorem c01_v2txn_conserves {T} {ms ms' : Mid} {t : Txn2} {mw : Nat} {R : List (
     (hv : validateV2Transaction ms t mw = .ok ()) (ha : applyV2Transaction ms t = .ok ms') :
     Inv T ms' ∧ Fresh T ms' R ∧ ms'.base = ms.base ∧
     Phi ms' + t.fee + t.forfeits = Phi ms + t.claims ms.pool ∧ sfTot ms' = sfTot ms ∧ ms.pool ≤ ms'.pool ∧
-    (CsOk ms → CsOk ms' ∧ Psi ms' + 10000 * t.claims ms.pool ≤ Psi ms + (ms'.pool - ms.pool) * sfTot ms) :=
+    (CsOk ms → CsOk ms' ∧ Psi ms' + 10000 * t.claims ms.pool ≤ Psi ms + (ms'.pool - ms.pool) * sfTot ms) ∧
+    ms'.pool = ms.pool + t.taxes :=
   v2txn_conserves hc hfix hI hF hnw hsfb hv ha
 
 /-- One accepted v1 transaction: potential + fees = potential before + claims; siafunds unchanged. -/
@@ -347,7 +348,8 @@ theorem c01_v1txn_conserves {T} {ms ms' : Mid} {t : Txn1} {pid : Id} {mw : Nat} 
     (hv : validateTransaction ms t pid mw = .ok ()) (ha : applyTransaction ms t = .ok ms') :
     Inv T ms' ∧ Fresh T ms' R ∧ ms'.base = ms.base ∧
     Phi ms' + t.fees.sum = Phi ms + t.claims ms ∧ sfTot ms' = sfTot ms ∧ ms.pool ≤ ms'.pool ∧
-    (CsOk ms → CsOk ms' ∧ Psi ms' + 10000 * t.claims ms ≤ Psi ms + (ms'.pool - ms.pool) * sfTot ms) :=
+    (CsOk ms → CsOk ms' ∧ Psi ms' + 10000 * t.claims ms ≤ Psi ms + (ms'.pool - ms.pool) * sfTot ms) ∧
+    ms'.pool = ms.pool + t.taxes ms.base :=
   v1txn_conserves hc hI hsupp hF hlen hnw hsfb hv ha
 
 /-! ## 5. Non-vacuity: a concrete two-block chain satisfying every hypothesis -/
